@@ -63,7 +63,7 @@ theorem sampledAxis_strictMono (si off : α) (hx : StrictMonoN (posAt si off)) :
 theorem sampled_rel (fuel : Nat) (p off si : α) (m : PositionMatch)
     (hx : StrictMonoN (posAt si off)) (hx0 : posAt si off 0 = off)
     (hsi : zero < si) (hfp : isFinite p = true) (hfo : isFinite off = true)
-    (hfuel : p < posAt si off fuel) :
+    (hfuel : p < posAt si off fuel) (hq : floor (div (sub p off) si) < ofNat 9007199254740992) :
     relIndex (sampledAxis si off) m p (getSampledIndex fuel p off si m)
       (getSampledIndex fuel p off si .lessOrEqual) = true := by
   have hv := sampledAxis_valid si off
@@ -74,7 +74,7 @@ theorem sampled_rel (fuel : Nat) (p off si : α) (m : PositionMatch)
   by_cases h1 : p < off
   · simp only [h1, if_true]
     cases m <;> simp [relIndex, PositionMatch.isGreater, hv, hc, hx0, h1] <;> grind
-  · simp only [h1, if_false, hsi, hfp, hfo, decide_true, Bool.not_true, Bool.or_self, Bool.false_eq_true]
+  · simp only [h1, if_false, hsi, hfp, hfo, hq, decide_true, Bool.not_true, Bool.or_self, Bool.false_eq_true]
     generalize hest : (if floor (div (sub p off) si) < zero then 0 else toNat (floor (div (sub p off) si))) = est
     have h0 : ¬ p < posAt si off 0 := by rw [hx0]; exact h1
     have hd := corrDown_post (posAt si off) p est h0
